@@ -142,7 +142,7 @@ def gen_mesh(rng, big=False, allow_bad=True):
 
 def nan_normal_risk(vs, ts):
     """a vertex whose adjacent unit triangle normals (nearly) cancel, or a (nearly) zero-area triangle: the tri writer
-    would print nan (known finding, keyed by its own witness) - such meshes are not sent through .tri"""
+    printed nan before fix 7496085; kept as a label of the feature distribution (these meshes now go through .tri too)"""
     acc = {}
     for t in ts:
         if max(t) >= len(vs): return False
@@ -168,6 +168,14 @@ def case_convert(fa, fb, flags, cid, vs, ts):
 def case_concat(fmt, flags, cid, m1, m2):
     cs = allcoords(m1[0]) + allcoords(m2[0])
     return "c15 " + " ".join(map(str, [5, fmt, flags, cid] + mesh_wire(*m1) + mesh_wire(*m2) + table(cs, rnd_of(fmt))))
+
+def chain_rnd(fa, fb, fc):
+    ra, rb, rc = rnd_of(fa), rnd_of(fb), rnd_of(fc)
+    return lambda x: rc(rb(ra(x)))
+def case_chain(fa, fb, fc, flags, cid, vs, ts):
+    ra, rb, rc = rnd_of(fa), rnd_of(fb), rnd_of(fc)
+    cs = allcoords(vs); c1 = [ra(x) for x in cs]; c2 = [rb(x) for x in c1]
+    return "c15 " + " ".join(map(str, [6, fa, fb, fc, flags, cid] + mesh_wire(vs, ts) + table(cs, ra) + table(c1, rb) + table(c2, rc)))
 
 def second_mesh(rng, vs, ts):
     """a mesh sharing some vertices (exact coordinates) with (vs, ts): shifted copy glued along coincident points, or a random one"""
@@ -230,8 +238,9 @@ def locally_consistent(ts):
     return True
 
 def relation_roundtrip(fmt, before, after):
-    """the property's own relation, on the implementation's dumps; returns None if it holds (or its premises do not), else text"""
-    f = rnd_of(fmt)
+    """the property's own relation, on the implementation's dumps; returns None if it holds (or its premises do not), else text.
+    fmt: a format number, or the rounding function itself (tool chains: composition of the formats' roundings)"""
+    f = fmt if callable(fmt) else rnd_of(fmt)
     rc = [tuple(f(c) for c in v) for v in before["coords"]]
     if len(set(rc)) != len(rc): return None                        # premise: distinct after rounding
     if not locally_consistent(before["tris"]): return None          # premise: consistent winding
@@ -298,18 +307,17 @@ def compare_bytes(model, path):
     return None
 
 # ---------------------------------------------------------------- fixed witnesses (refuted theorems, replayed every run)
-NAN_SIG = "roundtrip tri: NaN vertex normal (zero-area triangle (0,0,0),(1,0,0),(2,0,0)) is written as nan and cannot be read back"
-
 def witnesses():
     w = []
     # collision after rounding: two vertices 1e-9 apart are one vertex after a text round trip (premise of mesh_roundtrip is necessary)
     fan = [(0.5, 0.5, 0.0), (0.500000001, 0.5, 0.0), (0.0, 0.0, 0.0), (1.0, 0.0, 0.0), (1.0, 1.0, 0.0), (0.0, 1.0, 0.0)]
     w.append(("collide-tri", case_roundtrip(0, 1, fan, [(0, 2, 3), (0, 3, 4), (1, 4, 5), (1, 5, 2)])))
-    # outside the model's assumption "normals are printed as numbers": a zero-area triangle has a NaN normal
-    w.append(("nan-normal-tri", case_roundtrip(0, 1, [(0.0, 0.0, 0.0), (1.0, 0.0, 0.0), (2.0, 0.0, 0.0)], [(0, 1, 2)])))
+    # c15_flood_fill_consistent_refuted: the pair (2,3,4),(3,4,5) hangs on triangle (0,1,2) by vertex 2 only and stays inconsistent after load
+    bt = [(0.0, 0.0, 0.0), (1.0, 0.0, 0.0), (0.5, 1.0, 0.0), (0.0, 2.0, 0.0), (1.0, 2.0, 0.0), (0.5, 3.0, 0.0)]
+    w.append(("bowtie", case_roundtrip(1, 0, bt, [(0, 1, 2), (2, 3, 4), (3, 4, 5)])))
     return w
 
-OPN = {1: "roundtrip", 2: "writer", 3: "merge", 4: "om_mesh_convert", 5: "om_mesh_concat"}
+OPN = {1: "roundtrip", 2: "writer", 3: "merge", 4: "om_mesh_convert", 5: "om_mesh_concat", 6: "om_mesh_convert chain"}
 
 def describe(line):
     w = parse_case(line); op = w[0]
@@ -320,6 +328,7 @@ def describe(line):
     if op == 4: return "om_mesh_convert %s->%s" % (FMT[w[1]], FMT[w[2]]), read_mesh(w, 5)[:2]
     if op == 5:
         vs, ts, p = read_mesh(w, 4); return "om_mesh_concat %s" % FMT[w[1]], (vs, ts) + read_mesh(w, p)[:2]
+    if op == 6: return "om_mesh_convert chain %s->%s->%s" % (FMT[w[1]], FMT[w[2]], FMT[w[3]]), read_mesh(w, 6)[:2]
     return "?", ()
 
 def short(line):
@@ -332,7 +341,7 @@ def short(line):
 def rebuild(line, ts_new, which=0):
     """same case with the triangle list of mesh `which` replaced (for shrinking)"""
     w = parse_case(line); op = w[0]
-    hdr = {1: 3, 2: 4, 3: 2, 4: 5, 5: 4}[op]
+    hdr = {1: 3, 2: 4, 3: 2, 4: 5, 5: 4, 6: 6}[op]
     vs, ts, p = read_mesh(w, hdr)
     if op in (3, 5):
         vs2, ts2, p2 = read_mesh(w, p)
@@ -411,24 +420,48 @@ def main(replay=None):
         for name, c in wit: cases.append(c); labels.append("witness:" + name)
         nmesh = 130 if quick else 1500
         for k in range(nmesh):
-            tags, vs, ts = gen_mesh(rng, big=(not quick and k % 40 == 0))   # 320-triangle meshes cost the extracted model minutes (unary nat): thorough tier only
+            tags, vs, ts = gen_mesh(rng, big=(k % 16 == 0))   # icosphere/octasphere level 2 (320 / 512 triangles)
             flags = 0 if ("flipped" in tags and rng.random() < 0.6) else 1
             lab = ",".join(tags)
             risky = nan_normal_risk(vs, ts)
-            if risky: lab += ",nan-normal-risk(no .tri)"
+            if risky: lab += ",null-normal"
             for fmt in range(4):
-                if fmt == 0 and risky: continue
                 cases.append(case_roundtrip(fmt, flags, vs, ts)); labels.append("roundtrip:" + lab)
             for _ in range(2 if k % 4 == 0 else 1):
-                fmt = rng.randint(1 if risky else 0, 3 if risky else 4)
+                fmt = rng.randint(0, 4)
                 cases.append(case_writer(fmt, flags, len(cases), vs, ts)); labels.append("writer:" + lab)
             if k % 3 == 0:
                 v2, t2 = second_mesh(rng, vs, ts)
                 cases.append(case_merge(1, (vs, ts), (v2, t2))); labels.append("merge:" + lab)
                 if k % 6 == 0:
-                    cases.append(case_concat(rng.randint(1 if (risky or nan_normal_risk(v2, t2)) else 0, 3), 1, len(cases), (vs, ts), (v2, t2))); labels.append("concat:" + lab)
+                    cases.append(case_concat(rng.randint(0, 3), 1, len(cases), (vs, ts), (v2, t2))); labels.append("concat:" + lab)
             if k % 5 == 0:
-                cases.append(case_convert(rng.randint(1 if risky else 0, 3), rng.randint(1 if risky else 0, 3), flags, len(cases), vs, ts)); labels.append("convert:" + lab)
+                cases.append(case_convert(rng.randint(0, 3), rng.randint(0, 3), flags, len(cases), vs, ts)); labels.append("convert:" + lab)
+        # level-3 spheres (642 vertices / 1280 triangles; 258 / 512), consistent windings (the fill itself is exercised on level <= 2)
+        for n, (mk, lvl) in enumerate([(models.icosphere, 3), (models.octasphere, 3)] if quick else [(models.icosphere, 3), (models.octasphere, 3), (models.octasphere, 4)]):
+            vs, ts = mk(lvl); mag = 10.0 ** rng.randint(-3, 3)
+            vs = [tuple(float(c) * mag * (1 + 1e-4 * rng.random()) for c in v) for v in vs]
+            if n % 2: ts = [(a, c_, b) for a, b, c_ in ts]
+            for fmt in ((0, 3) if n == 0 else (1, 2)):
+                cases.append(case_roundtrip(fmt, 1, vs, ts)); labels.append("roundtrip:level3,%s" % ("inward" if n % 2 else "outward"))
+            cases.append(case_writer(rng.randint(0, 4), 1, len(cases), vs, ts)); labels.append("writer:level3")
+        # level-2 sphere with every 7th triangle flipped, written unrepaired: the readers' flood fill on 320 triangles
+        vs, ts = models.icosphere(2); vs = [tuple(float(c) * 87.3 for c in v) for v in vs]; ts = list(ts)
+        for i in range(rng.randint(0, 6), len(ts), 7): a, b, c_ = ts[i]; ts[i] = (b, a, c_)
+        for fmt in (0, 1):
+            cases.append(case_roundtrip(fmt, 0, vs, ts)); labels.append("roundtrip:ico2,flipped")
+        # tool-level round trips through om_mesh_convert: closed and open surfaces, both windings, all format pairs over a run
+        chains = [(0, 1, 0), (1, 0, 1), (0, 2, 0), (2, 3, 2), (3, 0, 3), (1, 3, 1), (0, 3, 1), (2, 1, 0), (3, 2, 0), (1, 2, 3)]
+        shapes = [("closed", lambda: models.icosphere(rng.choice([0, 1]))), ("closed", lambda: models.octasphere(1)),
+                  ("open", lambda: hemisphere(1, rng.random() < 0.5)), ("open", lambda: disc(rng.randint(3, 9))), ("open", lambda: patch(rng, 3, 2))]
+        for n in range(20 if quick else 200):
+            topo, mk = shapes[n % len(shapes)]; vs, ts = mk()
+            mag = 10.0 ** rng.randint(-6, 6); off = [(rng.random() - 0.5) * 3 * mag for _ in range(3)]
+            vs = [tuple(float(v[k]) * mag * (1 + 1e-3 * rng.random()) + off[k] for k in range(3)) for v in vs]
+            wind = "outward" if (n // len(shapes)) % 2 == 0 else "inward"
+            if wind == "inward": ts = [(a, c_, b) for a, b, c_ in ts]
+            fa, fb, fc = chains[(n + ck.seed) % len(chains)]
+            cases.append(case_chain(fa, fb, fc, 1, len(cases), vs, ts)); labels.append("chain:%s,%s,mag%+d" % (topo, wind, round(math.log10(mag))))
     mo, io = run_both(ck, hb, cases, tooldir)
     dist = {}; tagdist = {}; nontriv = set(); mism = []; relfail = []; errpaths = 0; files_cmp = 0
     for cid, (c, lab, m, i) in enumerate(zip(cases, labels, mo, io)):
@@ -440,30 +473,27 @@ def main(replay=None):
         if len(c.split()) > 40: nontriv.add(c)
         if j: mism.append((c, lab, m, i, j))
         # the property's own relation, evaluated on the implementation
-        if op == 1 and not i.startswith("CRASH"):
+        if op in (1, 6) and not i.startswith("CRASH"):
             o = [int(x) for x in i.split()]
             if o[0] == 0:
                 before, p = parse_dump(o, 1)
                 after = parse_dump(o, p + 1)[0] if o[p] == 0 else None
-                fmt = int(c.split()[2])
+                cw = c.split()
+                fmt = int(cw[2]) if op == 1 else chain_rnd(int(cw[2]), int(cw[3]), int(cw[4]))
                 unused = set(before["gidx"]) - {a for t in before["tris"] for a in t}
                 r = relation_roundtrip(fmt, before, after)
                 if r: relfail.append((c, lab, fmt, r, bool(unused)))
     # ---- decide
     relfail.sort(key=lambda x: len(x[0]))          # smallest failing meshes first
     for n, (c, lab, fmt, r, unused) in enumerate(relfail[:6]):
-        if lab == "witness:nan-normal-tri":
-            sig = NAN_SIG
-        else:
-            pred = lambda cc, mm, ii: _rel_fails(cc, ii)
-            if n < 2: c = shrink(ck, hb, tooldir, c, pred)
-            sig = "roundtrip %s: %s" % (FMT[fmt], short(c)[:200])
-        ck.violation(sig, "a mesh is not the same after save+load in format %s (%s): %s" % (FMT[fmt], r, short(c)),
+        pred = lambda cc, mm, ii: _rel_fails(cc, ii)
+        if n < 2: c = shrink(ck, hb, tooldir, c, pred)
+        sig = "%s: %s" % (describe(c)[0], short(c)[:200])
+        ck.violation(sig, "a mesh is not the same after %s (%s): %s" % ("save+load in format " + FMT[fmt] if not callable(fmt) else "the om_mesh_convert chain", r, short(c)),
                      dict(kind="property-relation", cases=[c], replay_cmd="./check C15 --replay <this file>"))
     known_model_agrees = 0
     mism.sort(key=lambda x: len(x[0]))
     for n, (c, lab, m, i, (kind, text)) in enumerate(mism[:6]):
-        if lab == "witness:nan-normal-tri": continue      # reported through the property relation above
         op = int(c.split()[1])
         pred = lambda cc, mm, ii: judge(ck, cc, mm, ii, 0) is not None
         c2 = shrink(ck, hb, tooldir, c, pred) if (kind != "malformed" and n < 2) else c
@@ -476,12 +506,11 @@ def main(replay=None):
     if not replay:
         for (name, c) in wit:
             k = cases.index(c); i = io[k]; m = mo[k]
-            if name == "nan-normal-tri":
-                if m == i: ck.notes.append("the NaN-normal witness no longer fails on the implementation")
-                continue
+            o = [int(x) for x in i.split()]
+            before, p = parse_dump(o, 1); after = parse_dump(o, p + 1)[0] if o[p] == 0 else None
+            if name == "bowtie":
+                ok = after is not None and m == i and local_tris(after) == [(0, 1, 2), (2, 3, 4), (3, 4, 5)] and not locally_consistent(after["tris"])
             else:
-                o = [int(x) for x in i.split()]
-                before, p = parse_dump(o, 1); after = parse_dump(o, p + 1)[0] if o[p] == 0 else None
                 ok = after is not None and after["ng"] == before["ng"] - 1 and m == i
             if not ok:
                 ck.violation("witness %s does not reproduce" % name, "the witness of a _refuted theorem does not reproduce on the implementation: the model is wrong (%s)" % short(c),
@@ -499,13 +528,19 @@ def main(replay=None):
     ck.assumptions += ["operator<< of double at the default stream precision prints '%.6g'; operator>> reads it back correctly rounded (libc/libstdc++ formatting, assumed; checked on every compared file)",
                        "static_cast<float> rounds to nearest float32 (struct.pack('<f') on the Python side)",
                        "pointers into Geometry::vertices() are modelled as positions; Edge::operator== (by coordinates) is modelled as position equality, valid in a geometry filled through add_vertex",
-                       "normals are opaque tokens: a NaN normal (zero-area triangle, cancelling normals) is outside the model",
+                       "normals are opaque number tokens (since fix 7496085 Mesh::normal never returns NaN; checked on every compared tri/vtk file)",
                        "streams in fail state (truncated/foreign files) are outside the model (Fail); that is C19's subject",
                        "private members reached through #define private public in the harness TU"]
     return ck.finish()
 
 def _rel_fails(c, i):
     if i.startswith("CRASH"): return False
+    cw = c.split()
+    if cw[1] == "6":
+        o = [int(x) for x in i.split()]
+        if o[0] != 0: return False
+        before, p = parse_dump(o, 1); after = parse_dump(o, p + 1)[0] if o[p] == 0 else None
+        return relation_roundtrip(chain_rnd(int(cw[2]), int(cw[3]), int(cw[4])), before, after) is not None
     o = [int(x) for x in i.split()]
     if o[0] != 0: return False
     before, p = parse_dump(o, 1)
